@@ -329,6 +329,23 @@ fn scenarios_c10(tier: Tier) -> Vec<Scenario> {
             }
         }
     }
+    // a chain whose first initial point is rejected (recoverable density error) retries from its
+    // OWN random stream: its rows must not depend on what other chains have done by then
+    for preset in [Preset::DiagNuts, Preset::DiagMclmc] {
+        for &(ch, co) in &[(2usize, 1usize), (2, 2)] {
+            for faulty in 0..ch {
+                for evals in [vec![0u64], vec![0, 1]] {
+                    let mut s = base(
+                        format!("{preset:?}/c{ch}k{co}/init-attempts-{}-of-chain{faulty}-rejected/seed42", evals.len()),
+                        preset, ch, co, vec![], Terminal::WaitLong, tier.pick(2, 3),
+                    );
+                    s.seed = 42;
+                    s.plan = FaultPlan { dens: evals.iter().map(|k| (faulty, Some(*k), DensKind::Recoverable)).collect(), ..Default::default() };
+                    out.push(s);
+                }
+            }
+        }
+    }
     // the low-rank presets: chain construction (per-chain random streams) and a plain run (the flow
     // presets need a model with a normalising flow, which the scheduler model does not have)
     for preset in [Preset::LowRankNuts, Preset::LowRankMclmc] {
@@ -449,6 +466,25 @@ fn scenarios_c12(tier: Tier) -> Vec<Scenario> {
                     preset, ch, co, sc.clone(), Terminal::WaitLong, bound,
                 ));
             }
+        }
+    }
+    // many commands queued for one chain between two of its polls: every word of length 5 (6)
+    // over {pause, resume} issued back to back, and a five-command word ending in pause with more
+    // draws per chain than commands (so that "one further draw per queued command" binds)
+    for &(ch, co) in &[(1usize, 1usize), (2, 1)] {
+        for len in tier.pick(vec![5usize], vec![5usize, 6]) {
+            for w in 0..(1u32 << len) {
+                let sc: Vec<Op> = (0..len).map(|i| if (w >> i) & 1 == 0 { Op::Pause } else { Op::Resume }).collect();
+                out.push(base(format!("DiagNuts/c{ch}k{co}/{}", script_name(&sc)), Preset::DiagNuts, ch, co, sc, Terminal::WaitLong, 1));
+            }
+        }
+        for tail in [vec![Op::Sleep, Op::Resume], vec![Op::Sleep]] {
+            let mut sc = vec![Op::Pause, Op::Resume, Op::Pause, Op::Resume, Op::Pause];
+            sc.extend(tail);
+            let mut s = base(format!("DiagNuts/c{ch}k{co}/draws8/{}", script_name(&sc)), Preset::DiagNuts, ch, co, sc, Terminal::WaitLong, 1);
+            s.num_tune = 2;
+            s.num_draws = 6;
+            out.push(s);
         }
     }
     out
